@@ -253,6 +253,12 @@ class PathWorld:
             out["emis_sha"].append(C.hashlib.sha1(open(pth, "rb").read()).hexdigest() if st == "ok" else st)
         st, obj = C._load(self.gen / C.GEN_FILES["seeds"])
         out["seeds"] = [int(x) for x in obj] if st == "ok" else st
+        # what the configuration implies, read off the stored scenarios (sources file sets its own durations)
+        rules = C.rules_from_vw(sm.virtual_world, source_level=True)
+        out["implied"] = []
+        for i in range(n_sims):
+            st, obj = C._load(self.gen / C.Generator_Files.GEN_INFRA_EMISS.format(i=i))
+            out["implied"].append(C.implied_violations(obj, rules) if st == "ok" else [])
         st, obj = C._load(self.gen / C.GEN_FILES["hashes"])
         out["hashes"] = obj if st == "ok" else st
         return out
